@@ -257,7 +257,7 @@ def write_evidence(prop, level, tier, seed, stats, rule, assumptions, wall_s, ex
         'coverage': cov,
         'assumptions': list(assumptions),
         'wall_s': round(wall_s, 2),
-        'violations': len(stats.violations),
+        'violations': len(stats.violations) - stats.extra.get('violations_not_reproduced', 0),
     }
     d = os.path.join(env.OUT, 'evidence')
     os.makedirs(d, exist_ok=True)
@@ -265,6 +265,26 @@ def write_evidence(prop, level, tier, seed, stats, rule, assumptions, wall_s, ex
     with open(tmp, 'w') as f:
         json.dump(ev, f, indent=1, default=repr)
     os.replace(tmp, os.path.join(d, '%s.json' % prop))
+
+
+NOT_REPLAYABLE = ('C19',)      # real threads: the schedule is not part of the case
+
+
+def _reproduces(prop, path):
+    if prop in NOT_REPLAYABLE or os.environ.get('VERIF_NO_REVERIFY'):
+        return True
+    import subprocess
+    chk = os.path.join(env.VERIF, 'check')
+    for _ in range(2):
+        try:
+            r = subprocess.run([chk, prop, '--replay', path], capture_output=True, text=True, timeout=1800)
+        except Exception:
+            return True             # cannot tell: keep the violation
+        if r.returncode == 1 or 'KNOWN-FINDING' in r.stdout:
+            return True
+        if r.returncode != 0:
+            return True             # harness error while replaying: keep the violation visible
+    return False
 
 
 def finish(prop, level, tier, seed, stats, rule, assumptions, t0, extra=None):
@@ -281,13 +301,19 @@ def finish(prop, level, tier, seed, stats, rule, assumptions, t0, extra=None):
             continue
         seen.add(sig)
         path = write_replay(prop, sig, detail, case)
+        if not _reproduces(prop, path):
+            # a violation is reported with a replay file that reproduces it; one that does not (state of an earlier
+            # case of the same worker process, real time, scheduling) is counted and shown, never a verdict
+            stats.inconclusive.append('%s: seen once, does not reproduce from its replay file %s in a fresh process' % (sig, os.path.relpath(path, env.VERIF)))
+            stats.extra['violations_not_reproduced'] += 1
+            continue
         print('VIOLATION property=%s replay=%s' % (prop, os.path.relpath(path, env.VERIF)))
         print('  signature: %s' % sig)
         print('  detail: %s' % (detail if len(str(detail)) < 2000 else str(detail)[:2000] + '...'))
         code = 1
     write_evidence(prop, level, tier, seed, stats, rule, assumptions, time.time() - t0, extra)
     print('%s %s: %d cases, %d distinct non-trivial, %d violations, %.1fs' % (
-        prop, tier, stats.evaluations, len(stats.nontrivial), len(stats.violations), time.time() - t0))
+        prop, tier, stats.evaluations, len(stats.nontrivial), len(stats.violations) - stats.extra.get('violations_not_reproduced', 0), time.time() - t0))
     for m in stats.inconclusive:
         print('  inconclusive: %s' % m)
     sys.stdout.flush()
